@@ -86,6 +86,30 @@ type retransLoop struct {
 	// when the select lives in a boolean helper called from fn (wait-for-answer-or-timeout helpers):
 	waitCall *ssa.Call    // the call of the helper in fn
 	caseVal  map[int]bool // what the helper returns when the select picks state k
+	// when the helper also transmits (one "send once and wait" step per iteration): write is the message write
+	// inside the helper and stepCall == waitCall is its call in fn
+	stepCall *ssa.Call
+}
+
+// writeAt: the instruction of fn at which the message is transmitted (the write, or the call of the step helper).
+func (rl *retransLoop) writeAt() ssa.Instruction {
+	if rl.stepCall != nil {
+		return rl.stepCall
+	}
+	return rl.write
+}
+
+// msgArg: the message transmitted, as a value of fn.
+func (rl *retransLoop) msgArg() ssa.Value {
+	m := rl.write.Call.Args[0]
+	if rl.stepCall != nil {
+		if p, ok := flow.Peel(m).(*ssa.Parameter); ok {
+			if i := paramIndex(p.Parent(), p); i < len(rl.stepCall.Call.Args) {
+				return rl.stepCall.Call.Args[i]
+			}
+		}
+	}
+	return m
 }
 
 // waitAt: the instruction in fn at which the loop waits (the select, or the call of the helper holding it).
@@ -199,6 +223,61 @@ func (c *Ctx) findRetransLoop(fn *ssa.Function) *retransLoop {
 		}
 		return rl
 	}
+	// the loop calls a step helper that transmits once and then waits: the write precedes the helper's select on
+	// every path, and the helper's returns outside the select cases lie on the write's error edge
+	for _, ci := range flow.CallInstrs(fn) {
+		hc, ok := ci.(*ssa.Call)
+		if !ok {
+			continue
+		}
+		l := flow.InnermostLoop(loops, hc)
+		h := flow.StaticCallee(hc)
+		if l == nil || h == nil || h.Blocks == nil || !c.P.IsLibrary(h) || len(flow.Loops(h)) > 0 {
+			continue
+		}
+		var w *ssa.Call
+		nw := 0
+		for _, cj := range flow.CallInstrs(h) {
+			if wc, ok := cj.(*ssa.Call); ok && isMessageWrite(wc) {
+				w = wc
+				nw++
+			}
+		}
+		sel, vals := selectHelper(h)
+		if nw != 1 || sel == nil || len(vals) != len(sel.States) {
+			continue
+		}
+		if flow.PathAvoiding(h, nil, func(in ssa.Instruction) bool { return in == ssa.Instruction(sel) }, func(in ssa.Instruction) bool { return in == ssa.Instruction(w) }) != nil {
+			continue // the select can be reached without the write
+		}
+		eb := errorEdgeBlocks(w)
+		tmp := &retransLoop{fn: h, sel: sel}
+		for _, ref := range flow.Referrers(sel) {
+			if ex, ok := ref.(*ssa.Extract); ok && ex.Index == 0 {
+				tmp.idx = ex
+			}
+		}
+		okRets := true
+		flow.Instrs(h, func(in ssa.Instruction) {
+			ret, isRet := in.(*ssa.Return)
+			if !isRet || ret.Block() == h.Recover {
+				return
+			}
+			under := false
+			for st := range sel.States {
+				if tmp.caseDominates(st, ret.Block()) {
+					under = true
+				}
+			}
+			if !under && !eb[ret.Block()] {
+				okRets = false
+			}
+		})
+		if !okRets {
+			continue
+		}
+		return &retransLoop{fn: fn, loop: l, write: w, timerK: -1, sel: sel, waitCall: hc, caseVal: vals, stepCall: hc}
+	}
 	return nil
 }
 
@@ -233,7 +312,7 @@ func (c *Ctx) checkRetransBound(rl *retransLoop, rule, key string) {
 	// test at the top of the body), comparing a loop counter with the bound
 	var ifi *ssa.If
 	var rel rel
-	for _, g := range flow.Guards(rl.write) {
+	for _, g := range flow.Guards(rl.writeAt()) {
 		if !rl.loop.Blocks[g.If.Block()] {
 			continue
 		}
@@ -377,8 +456,8 @@ func (c *Ctx) checkTimerSpacing(rl *retransLoop, field, rule, key string) {
 		r.Fail(rule, key, c.pos(rl.sel), "the select between transmissions has a default case: the next transmission follows immediately instead of after "+field)
 		return
 	}
-	isW := func(in ssa.Instruction) bool { return in == ssa.Instruction(rl.write) }
-	if p := flow.PathAvoiding(rl.fn, rl.write, isW, func(in ssa.Instruction) bool { return in == rl.waitAt() }); p != nil {
+	isW := func(in ssa.Instruction) bool { return in == rl.writeAt() }
+	if p := flow.PathAvoiding(rl.fn, rl.writeAt(), isW, func(in ssa.Instruction) bool { return in == rl.waitAt() }); p != nil && rl.stepCall == nil {
 		r.Fail(rule, key, c.pos(rl.write), "a cycle through the write does not pass the select that waits for the answer / timer", c.witness(p)...)
 		return
 	}
@@ -403,6 +482,46 @@ func (c *Ctx) checkTimerSpacing(rl *retransLoop, field, rule, key string) {
 		first := cb.Instrs[0]
 		if isW(first) || flow.PathAvoiding(rl.fn, first, isW, nil) != nil {
 			r.Fail(rule, key, c.pos(first), fmt.Sprintf("select case %d (not the %s timer) leads back to another transmission: a retransmission can follow without the interval having elapsed", k, field))
+			return
+		}
+	}
+	if rl.stepCall != nil {
+		// what the step helper reports when its write failed must not lead to another transmission either
+		h := rl.write.Parent()
+		eb := errorEdgeBlocks(rl.write)
+		bad := ""
+		flow.Instrs(h, func(in ssa.Instruction) {
+			ret, isRet := in.(*ssa.Return)
+			if !isRet || !eb[ret.Block()] || len(ret.Results) != 1 || bad != "" {
+				return
+			}
+			k, isK := ret.Results[0].(*ssa.Const)
+			if !isK || k.Value == nil || k.Value.Kind() != constant.Bool {
+				bad = "the step helper's result after a failed write is not a constant"
+				return
+			}
+			v := constant.BoolVal(k.Value)
+			for _, b := range rl.fn.Blocks {
+				ifi, ok := b.Instrs[len(b.Instrs)-1].(*ssa.If)
+				if !ok {
+					continue
+				}
+				cond, neg := flow.Cond(ifi.Cond, true)
+				if cond != ssa.Value(rl.stepCall) {
+					continue
+				}
+				i := 1
+				if v != neg {
+					i = 0
+				}
+				first := b.Succs[i].Instrs[0]
+				if isW(first) || flow.PathAvoiding(rl.fn, first, isW, nil) != nil {
+					bad = "after a failed write the step helper's result leads to another transmission at once"
+				}
+			}
+		})
+		if bad != "" {
+			r.Fail(rule, key, c.pos(rl.write), bad+": a retransmission can follow without the interval having elapsed")
 			return
 		}
 	}
